@@ -317,9 +317,23 @@ def normal_rules(chk, S, r3, fam):
                     w = cand.fn
         probe = A("probe")
         sel = it.call(w, [probe], {}, "<harness>") if w is not None else None
-        gets = [g for g in T.subterms(sel) if g.op == "getitem" and g.args[1] is idx] if sel is not None else []
-        ok = len(gets) == 1 and "probe" in T.atoms_of(gets[0])
-        detail = f"selector({T.show(probe)}) = {T.show(sel, 4)}"
+        if sel is not None:
+            gets = [g for g in T.subterms(sel) if g.op == "getitem" and g.args[1] is idx]
+            ok = len(gets) == 1 and "probe" in T.atoms_of(gets[0])
+            detail = f"selector({T.show(probe)}) = {T.show(sel, 4)}"
+        else:
+            # second recognised idiom: rows lo:hi of an identity matrix; must be the i-th block of a common width
+            Aop = td.fields["A"]
+            while isinstance(Aop, T.Term) and Aop.op in ("np.asarray",):
+                Aop = Aop.args[0]
+            ok = None
+            detail = f"linear map {T.show(Aop, 4)}: selector idiom not recognised"
+            if isinstance(Aop, T.Term) and Aop.op == "getitem" and isinstance(Aop.args[0], T.Term) and Aop.args[0].op == "np.eye":
+                sl = Aop.args[1][0] if isinstance(Aop.args[1], tuple) else Aop.args[1]
+                if isinstance(sl, slice) and sl.start is not None and sl.stop is not None and sl.step is None:
+                    wdt = nf.add(nf.norm(sl.stop), nf.norm(sl.start), -1)
+                    ok = nf.norm(sl.start) == nf.mul(nf.norm(idx), wdt) and bool(wdt)
+                    detail = f"rows {T.show(sl.start, 3)}:{T.show(sl.stop, 3)} of the identity; block i of width {nf.show(wdt)} starts at i*width"
         nm = td.fields["noise"]
         okn = isinstance(nm, Rec) and "obs_std" in T.value_atoms(nm.fields["cholesky_flat"]) and not T.value_atoms(nm.fields["mean_flat"])
         r3.require(okn, f"{nname}.to_derivative noise", "zero mean, standard deviation = std", f"noise = {T.show(nm, 4)}", where, cfg)
